@@ -13,5 +13,4 @@ Next == UNCHANGED <<keys, k>>
 \* C12: a hit exactly when the key is present, and the entry returned is that key's
 TableExact == TableFind(keys, k) = MapLookup(keys, k)
 HashExact == HashFind(keys, k, Dev) = MapLookup(keys, k)
-CtorReadsInBounds == HashCtorReads(keys, Dev) \subseteq 0..(Len(keys) - 1)
 =============================================================================
